@@ -184,7 +184,7 @@ IdxG(full) ==
   \cup {[i EXCEPT !.bare = TRUE] : i \in {i \in IdxB(1) : i.x[1] # i.x[2] /\ (i.x[1] + 3 * i.x[2]) % (IF full THEN 3 ELSE 16) = 0}}
 
 Family ==
-  CASE Tier = "quick"    -> IdxA(FALSE) \cup IdxB(1) \cup IdxC(16, 1) \cup IdxD(2, 1) \cup IdxE({1}) \cup IdxF2({1, 3}) \cup IdxG(FALSE) \cup IdxH({3}, {1}) \cup IdxP(4) \cup IdxV({1, 2, 4}, {1, 2, 5})
+  CASE Tier = "quick"    -> IdxA(FALSE) \cup IdxB(1) \cup IdxC(32, 1) \cup IdxD(2, 1) \cup IdxE({1}) \cup IdxF2({1, 3}) \cup IdxG(FALSE) \cup IdxH({3}, {1}) \cup IdxP(4) \cup IdxV({1, 2, 4}, {1, 2, 5})
     [] Tier = "thorough" -> IdxA(TRUE) \cup IdxB(6) \cup IdxC(2, 4) \cup IdxD(1, 12) \cup IdxE(1..NS) \cup IdxF2(1..NS) \cup IdxF3 \cup IdxG(TRUE) \cup IdxH({3, 4}, {1, 2}) \cup IdxP(1) \cup IdxV({1, 2, 4, 6, 12, 16, 17}, {1, 2, 5, 6})
 
 Init == sc \in Family /\ done = FALSE
